@@ -3,6 +3,20 @@
 #![allow(dead_code, unused_imports)]
 use super::*;
 
+pub fn ref_cmp_wat(op: hir::BinaryOperator) -> String {
+  let heap = &mut Heap::new();
+  let table = mir::SymbolTable::new();
+  let i = InlineInstruction::Binary {
+    v1: Box::new(InlineInstruction::LocalGet(PStr::LOWER_A)),
+    op,
+    v2: Box::new(InlineInstruction::LocalGet(PStr::LOWER_B)),
+    is_ref_comparison: true,
+  };
+  let mut s = String::new();
+  i.pretty_print(&mut s, heap, &table);
+  s
+}
+
 pub fn binary_wat(op: hir::BinaryOperator) -> String {
   let heap = &mut Heap::new();
   let table = mir::SymbolTable::new();
